@@ -146,6 +146,51 @@ theorem fmtBin_neg (w : Nat) (i : Int) (h : i < 0) : fmtBin w i = .error .unsupp
   have : ¬ (0 ≤ i) := by omega
   simp [fmtBin, this]
 
+/-! ### text of the models (`List Char`) as MiniPy strings -/
+
+/-- text (a `List Char` of the models) as MiniPy code points -/
+def codesOf (l : List Char) : List Nat := l.map Char.toNat
+
+theorem Char.toNat_inj' {a b : Char} (h : a.toNat = b.toNat) : a = b := by
+  apply Char.ext
+  exact UInt32.toNat_inj.mp h
+
+theorem codesOf_inj {a b : List Char} : codesOf a = codesOf b ↔ a = b := by
+  constructor
+  · intro h
+    induction a generalizing b with
+    | nil => cases b <;> simp_all [codesOf]
+    | cons x xs ih =>
+      cases b with
+      | nil => simp [codesOf] at h
+      | cons y ys =>
+        simp only [codesOf, List.map_cons, List.cons.injEq] at h
+        rw [Char.toNat_inj' h.1, ih (b := ys) h.2]
+  · intro h; rw [h]
+
+theorem isPrefixOf_codesOf (a b : List Char) : (codesOf a).isPrefixOf (codesOf b) = a.isPrefixOf b := by
+  induction a generalizing b with
+  | nil => simp [codesOf]
+  | cons x xs ih =>
+    cases b with
+    | nil => simp [codesOf]
+    | cons y ys =>
+      simp only [codesOf, List.map_cons, List.isPrefixOf] 
+      have := ih ys
+      simp only [codesOf] at this
+      rw [this]
+      by_cases hxy : x = y
+      · subst hxy; rw [beq_self_eq_true, beq_self_eq_true]
+      · have hn : x.toNat ≠ y.toNat := fun h => hxy (Char.toNat_inj' h)
+        have e1 : (x.toNat == y.toNat) = false := beq_eq_false_iff_ne.mpr hn
+        have e2 : (x == y) = false := beq_eq_false_iff_ne.mpr hxy
+        rw [e1, e2]
+
+/-- `a and b` on booleans -/
+theorem ite_truthy_bool_and (d e : Bool) :
+    (if truthy (Val.bool d) = true then (Except.ok (Val.bool e) : Except Err Val) else Except.ok (Val.bool d))
+      = .ok (.bool (d && e)) := by cases d <;> rfl
+
 /-- symbolic execution for blocks that use the second-round constructs -/
 macro "mp_sym" : tactic => `(tactic|
   (simp (decide := true) only [runItem, exec, eval, bind_ok', bind_error', lookup_cons_eq, lookup_cons_ne,
